@@ -2,17 +2,20 @@
 // regularised) and the regularizers of /repo, driven by a case file; one canonical line per input line.
 // usage: c06_loss <casefile>      numbers are "a" or "a/b" (b a power of two => exact doubles); output %a
 //
-// Calling-context stage (every line that evaluates something over a data set: E W R B F N, M, P, Z, A): after the result of the
-// call from the main thread, the same evaluation is repeated
-//   cs=   from the main thread on a fresh instance (serial reference),
-//   c2o= c3o=   from ONE thread of `#pragma omp parallel num_threads(2 / 3)` while the other threads of the team idle,
-//   c2a= c3a=   from EVERY thread of such a region concurrently, thread t on its own instance t (own model, own error function,
-//               own data set object, own random generator; all built BEFORE the region); results separated by ';',
-//   ck=   the team sizes the four regions really had.
-// An ErrorFunction result is written v:dv:g (eval value, evalDerivative value, derivative).  Inside a region SHARK_NUM_THREADS is
-// the size of the enclosing team and the library's own parallel loop runs on an inner team of one thread.  The team sizes are
-// requested with the num_threads clause and omp_set_dynamic(0)/omp_set_max_active_levels(1): independent of OMP_NUM_THREADS,
-// OMP_DYNAMIC and OMP_NESTED.
+// usage: c06_loss ctx <chunk> <casefile>      calling-context stage, one line "<kind> cs=.. c2o=.. c3o=.. c2a=..;.. c3a=..;..;.. ck=.."
+//   per input line that evaluates something over a data set (E W R B F N, M, P, Z, A), "<kind> -" for the other lines.
+//   For every such line THREE independent instances of the evaluation are built from the main thread, outside any parallel region
+//   (own model, own error function / likelihood, own data set objects, own regularizers, own random generator for the mini-batch
+//   choice; the stateless loss object is shared), then, chunk of lines by chunk of lines:
+//     cs=         instance 0 evaluated from the main thread with omp_set_num_threads(1): the serial reference,
+//     c2o= c3o=   instance 0 evaluated by ONE thread of `#pragma omp parallel num_threads(2 / 3)` (thread number = chunk index
+//                 modulo team size) while the other threads of the team idle at the barrier,
+//     c2a= c3a=   EVERY thread t of such a region evaluates its own instance t, all threads at the same time (results joined by ';'),
+//     ck=         the team sizes the four regions really had (must be 2,3,2,3).
+//   An ErrorFunction / NegativeLogLikelihood result is written v:dv:g (eval value, evalDerivative value, derivative).  Inside a
+//   region SHARK_NUM_THREADS is the size of the enclosing team and the library's own parallel loop runs on an inner team of one
+//   thread (number 0) that executes every batch range.  Team sizes are requested with the num_threads clause after
+//   omp_set_dynamic(0) / omp_set_max_active_levels(1): independent of OMP_NUM_THREADS, OMP_DYNAMIC, OMP_NESTED.
 #include <shark/ObjectiveFunctions/ErrorFunction.h>
 #include <shark/ObjectiveFunctions/Regularizer.h>
 #include <shark/ObjectiveFunctions/NegativeAUC.h>
@@ -67,7 +70,7 @@ static std::string hm(RealMatrix const& m) { std::string s; for (std::size_t i =
 static std::string hm(UIntVector const&) { return "-"; }
 static std::string hv(unsigned int) { return "-"; }
 
-// ---- calling-context stage
+// ---- calling-context stage (see the header comment)
 typedef std::function<std::string()> Job;
 static std::string safeJob(Job const& j) {
 	try { return j(); }
@@ -75,38 +78,49 @@ static std::string safeJob(Job const& j) {
 	catch (std::exception const&) { return "STDEXC"; }
 	catch (...) { return "UNKEXC"; }
 }
-// jobs: at least 3 independent instances of the same evaluation (instance t is only ever touched by one thread at a time)
-static std::string ctxStage(std::vector<Job> const& jobs, unsigned pick) {
-	std::ostringstream o; std::string teams;
-	o << " cs=" << safeJob(jobs[0]);
-	for (int k = 2; k <= 3; ++k) {      // one thread of the team evaluates, the others idle at the barrier
-		std::string r = "NOTRUN"; int team = 0; int who = (int)(pick % (unsigned)k);
-		#pragma omp parallel num_threads(k) shared(r, team)
+static bool g_collect = false;          // ctx mode: handle() builds the instances, hands them over and stops
+static std::vector<Job> g_jobs;
+struct CollectDone {};
+static void ctxHook(std::vector<Job> const& jobs) { g_jobs = jobs; throw CollectDone(); }
+
+struct CtxItem { std::string kind; bool has; std::vector<Job> jobs; std::string cs, o2, o3; std::vector<std::string> a2, a3; };
+static void ctxChunk(std::vector<CtxItem>& items, unsigned chunkIndex, std::ostream& out) {
+	int teams[4] = {0, 0, 0, 0};
+	omp_set_num_threads(1);
+	for (auto& it : items) if (it.has) it.cs = safeJob(it.jobs[0]);
+	for (int k = 2; k <= 3; ++k) {      // one thread of the team evaluates, the others idle at the barrier that ends the region
+		int team = 0; int who = (int)(chunkIndex % (unsigned)k);
+		#pragma omp parallel num_threads(k) shared(items, team)
 		{
 			#pragma omp single
 			team = omp_get_num_threads();
-			if (omp_get_thread_num() == who) r = safeJob(jobs[0]);
+			if (omp_get_thread_num() == who)
+				for (auto& it : items) if (it.has) (k == 2 ? it.o2 : it.o3) = safeJob(it.jobs[0]);
 		}
-		o << " c" << k << "o=" << r;
-		teams += (teams.empty() ? "" : ",") + std::to_string(team);
+		teams[k - 2] = team;
 	}
-	for (int k = 2; k <= 3; ++k) {      // every thread evaluates its own instance, all at the same time
-		std::vector<std::string> rs(k, "NOTRUN"); int team = 0;
-		#pragma omp parallel num_threads(k) shared(rs, team)
+	for (int k = 2; k <= 3; ++k) {      // every thread evaluates its own instance of every line, all threads at the same time
+		int team = 0;
+		for (auto& it : items) (k == 2 ? it.a2 : it.a3).assign(k, "NOTRUN");
+		#pragma omp parallel num_threads(k) shared(items, team)
 		{
 			#pragma omp single
 			team = omp_get_num_threads();
 			int t = omp_get_thread_num();
-			if (t < k) rs[t] = safeJob(jobs[t]);
+			if (t < k) for (auto& it : items) if (it.has) (k == 2 ? it.a2 : it.a3)[t] = safeJob(it.jobs[t]);
 		}
-		o << " c" << k << "a=";
-		for (int t = 0; t != k; ++t) o << (t ? ";" : "") << rs[t];
-		teams += "," + std::to_string(team);
+		teams[k] = team;
 	}
-	o << " ck=" << teams;
-	return o.str();
+	for (auto& it : items) {
+		if (!it.has) { out << it.kind << " -\n"; continue; }
+		out << it.kind << " cs=" << it.cs << " c2o=" << (it.o2.empty() ? "NOTRUN" : it.o2) << " c3o=" << (it.o3.empty() ? "NOTRUN" : it.o3) << " c2a=";
+		for (std::size_t t = 0; t != it.a2.size(); ++t) out << (t ? ";" : "") << it.a2[t];
+		out << " c3a=";
+		for (std::size_t t = 0; t != it.a3.size(); ++t) out << (t ? ";" : "") << it.a3[t];
+		out << " ck=" << teams[0] << "," << teams[1] << "," << teams[2] << "," << teams[3] << "\n";
+	}
+	out << std::flush;
 }
-static unsigned pickOf(std::string const& s) { unsigned h = 0; for (char c : s) h = h * 31u + (unsigned char)c; return h; }
 
 static RealMatrix mat(DV const& v, std::size_t n, std::size_t d) { RealMatrix m(n, d); for (std::size_t i = 0; i != n; ++i) for (std::size_t j = 0; j != d; ++j) m(i, j) = v[i * d + j]; return m; }
 static UIntVector uvec(DV const& v) { UIntVector u(v.size()); for (std::size_t i = 0; i != v.size(); ++i) u(i) = (unsigned int)v[i]; return u; }
@@ -212,7 +226,7 @@ std::shared_ptr<EFInst<L> > makeInst(char kind, AbstractLoss<L, RealVector>& los
 	return I;
 }
 template<class L>
-std::string efCtx(char kind, AbstractLoss<L, RealVector>& loss, std::vector<RealVector> const& in, std::vector<L> const& lab,
+void efCtx(char kind, AbstractLoss<L, RealVector>& loss, std::vector<RealVector> const& in, std::vector<L> const& lab,
                   std::vector<std::size_t> const& sz, RealVector const& p, std::size_t nin, std::size_t nh, std::size_t nout,
                   DV const& weights, std::string const& reg, double lam, DV const& mask, std::string const& mtype, long seed) {
 	std::vector<Job> jobs;
@@ -225,7 +239,7 @@ std::string efCtx(char kind, AbstractLoss<L, RealVector>& loss, std::vector<Real
 			return hx(v) + ":" + hx(dv) + ":" + hv(g);
 		});
 	}
-	return ctxStage(jobs, (unsigned)(in.size() + 7 * sz.size() + p.size()));
+	ctxHook(jobs);
 }
 
 template<class L>
@@ -237,6 +251,7 @@ std::string runEF(char kind, AbstractLoss<L, RealVector>& loss, std::vector<Real
 	ModelT& model = ext ? *ext : *mp;
 	RealVector p(params.size()); for (std::size_t i = 0; i != params.size(); ++i) p(i) = params[i];
 	if (p.size() != model.numberOfParameters()) throw std::runtime_error("parameter count");
+	if (g_collect) efCtx<L>(kind, loss, in, lab, sz, p, nin, nh, nout, weights, reg, lam, mask, mtype, seed);
 	LabeledData<RealVector, L> ds(mkData(in, sz), mkData(lab, sz));
 	OneNormRegularizer<> r1; TwoNormRegularizer<> r2;
 	RealVector mk(mask.size()); for (std::size_t i = 0; i != mask.size(); ++i) mk(i) = mask[i];
@@ -259,8 +274,7 @@ std::string runEF(char kind, AbstractLoss<L, RealVector>& loss, std::vector<Real
 	RealVector g;
 	double dv = ef->evalDerivative(p, g);
 	o << "v=" << hx(v) << " dv=" << hx(dv) << " g=" << hv(g);
-	std::string ctx = efCtx<L>(kind, loss, in, lab, sz, p, nin, nh, nout, weights, reg, lam, mask, mtype, seed);
-	if (kind == 'B') return o.str() + ctx;
+	if (kind == 'B') return o.str();
 	// brute force: loss of every element through the single-element interface on the model's single-input prediction
 	model.setParameterVector(p);
 	std::string el;
@@ -291,7 +305,7 @@ std::string runEF(char kind, AbstractLoss<L, RealVector>& loss, std::vector<Real
 		RealVector pg; double pv = plain.eval(p); double pdv = plain.evalDerivative(p, pg);
 		o << " rv=" << hx(rv) << " rdv=" << hx(rdv) << " rg=" << hv(rg) << " pv=" << hx(pv) << " pdv=" << hx(pdv) << " pg=" << hv(pg);
 	}
-	return o.str() + ctx;
+	return o.str();
 }
 
 // ---- finite differences of a loss w.r.t. the prediction (batch interface)
